@@ -162,21 +162,34 @@ Definition vsr_ok_for (r : vsroute) (vs_host path : string) : bool :=
 Definition route_key (v : vserver) (route : string) : string :=
   if has_char "/"%char route then route else m_ns (v_meta v) ++ "/" ++ route.
 
-Fixpoint build_vsrs (rs : smap vsroute) (v : vserver) (routes : list (string * string))
-  : list vsroute * list string :=
+(* buildVirtualServerRoutes: the routes of the VirtualServer are visited in order; a reference to a
+   VirtualServerRoute that is already attached is skipped with a warning ([seen] = the keys attached so
+   far), so that a VirtualServerRoute is attached at most once *)
+Fixpoint build_vsrs_k (rs : smap vsroute) (v : vserver) (seen : list string) (routes : list (string * string))
+  : list (string * vsroute) * list string :=
   match routes with
   | [] => ([], [])
   | (path, route) :: rest =>
-      let '(l, w) := build_vsrs rs v rest in
-      if String.eqb route "" then (l, w)
+      if String.eqb route "" then build_vsrs_k rs v seen rest
       else
         let k := route_key v route in
-        match lookup k rs with
-        | None => (l, ("VirtualServerRoute " ++ k ++ " doesn't exist or invalid") :: w)
-        | Some r => if vsr_ok_for r (v_host v) path then (r :: l, w)
-                    else (l, ("VirtualServerRoute " ++ k ++ " is invalid") :: w)
-        end
+        if existsb (String.eqb k) seen then
+          let '(l, w) := build_vsrs_k rs v seen rest in
+          (l, ("VirtualServerRoute " ++ k ++ " is referenced by more than one route; the reference in the route " ++ path ++ " is ignored") :: w)
+        else
+          match lookup k rs with
+          | None => let '(l, w) := build_vsrs_k rs v seen rest in
+                    (l, ("VirtualServerRoute " ++ k ++ " doesn't exist or invalid") :: w)
+          | Some r => if vsr_ok_for r (v_host v) path
+                      then let '(l, w) := build_vsrs_k rs v (k :: seen) rest in ((k, r) :: l, w)
+                      else let '(l, w) := build_vsrs_k rs v seen rest in
+                           (l, ("VirtualServerRoute " ++ k ++ " is invalid") :: w)
+          end
   end.
+
+Definition build_vsrs (rs : smap vsroute) (v : vserver) (routes : list (string * string))
+  : list vsroute * list string :=
+  let '(l, w) := build_vsrs_k rs v [] routes in (map snd l, w).
 
 Definition challenge_vsr (i : ingress) : vsroute :=
   mkVSR (mkMeta (m_ns (i_meta i)) (m_name (i_meta i)) "" 0 0 0) (host0 i) [hd "" (i_paths i)].
